@@ -519,7 +519,7 @@ theorem coupling_affine_fwd_apply (d n : ℕ) (cnd : List ℝ → List ℝ) (loc
     have : ps = rowAt d n cnd c w (i - d) := (Option.some.inj h1).symm
     subst this
     simp only [nth, h2]
-    simp [affineFamily, Affine.toBij, Affine.transform]
+    simp [affineFamily, Affine.toBij, Affine.transform] <;> ring
 
 theorem coupling_affine_fwd_differentiable (d n : ℕ) (cnd : List ℝ → List ℝ) (loc scale : List ℝ → ℝ) (c : List ℝ)
     (hc : CondDiff d n cnd loc scale c) :
